@@ -767,6 +767,24 @@ func (c *Conn) finish(r *Ctx, stream uint32, err error) {
 	r.resolve(err)
 }
 
+// finishHeld is finish for a caller that already holds r, which is how
+// dispatch runs while it reads into the Response. deletePending takes the Ctx
+// itself to close a streamed request body, and the lock is not reentrant: a
+// response or a reset that arrived while such a body was still waiting for
+// window to go out stopped the read loop, and with it the connection, for good.
+func (c *Conn) finishHeld(r *Ctx, stream uint32, err error) {
+	if c.takeReq(stream) {
+		atomic.AddInt32(&c.openStreams, -1)
+	}
+
+	if pb := c.takePending(stream); pb != nil {
+		c.closeBodyStream(pb)
+	}
+
+	r.markFinished()
+	r.resolve(err)
+}
+
 func (c *Conn) readLoop() {
 	defer func() { _ = c.Close() }()
 
@@ -859,10 +877,10 @@ func (c *Conn) dispatch(fr *FrameHeader) bool {
 	err := c.readStream(fr, r)
 	if err == nil {
 		if fr.Flags().Has(FlagEndStream) {
-			c.finish(r, fr.Stream(), nil)
+			c.finishHeld(r, fr.Stream(), nil)
 		}
 	} else {
-		c.finish(r, fr.Stream(), err)
+		c.finishHeld(r, fr.Stream(), err)
 	}
 
 	if err != nil && errors.Is(err, FlowControlError) {
@@ -1118,11 +1136,7 @@ func (c *Conn) signalWindow() {
 }
 
 func (c *Conn) deletePending(id uint32) {
-	c.sendLck.Lock()
-	pb := c.pending[id]
-	delete(c.pending, id)
-	c.sendLck.Unlock()
-
+	pb := c.takePending(id)
 	if pb == nil || pb.stream == nil {
 		return
 	}
@@ -1136,6 +1150,16 @@ func (c *Conn) deletePending(id uint32) {
 	defer pb.ctx.release()
 
 	c.closeBodyStream(pb)
+}
+
+// takePending takes what is left of a request body off the table.
+func (c *Conn) takePending(id uint32) *pendingBody {
+	c.sendLck.Lock()
+	pb := c.pending[id]
+	delete(c.pending, id)
+	c.sendLck.Unlock()
+
+	return pb
 }
 
 // pendingIDs snapshots the streams with a body still to send.
